@@ -508,3 +508,45 @@ func (d *Decoded) FullText() string {
 func (d *Decoded) Success() bool {
 	return d.Msg != nil && d.Msg.StatusCode == "urn:oasis:names:tc:SAML:2.0:status:Success"
 }
+
+// AllMessages decodes every SAML message a reply carries: a page may hold several forms (or several hidden
+// SAMLResponse fields), a body several XML documents. The first element is what Decode returns.
+func AllMessages(rec *Recorder) []*Decoded {
+	d := Decode(rec)
+	out := []*Decoded{d}
+	sub := func(body string) *Decoded {
+		r := NewRecorder()
+		r.Status = rec.Status
+		_, _ = r.Write([]byte(body))
+		return Decode(r)
+	}
+	switch d.Kind {
+	case "form":
+		n := 0
+		for i := range d.Tokens {
+			t := &d.Tokens[i]
+			if t.Kind != "start" || t.Name != "input" {
+				continue
+			}
+			if name, _ := t.Attr("name"); name != "SAMLResponse" {
+				continue
+			}
+			n++
+			if n == 1 {
+				continue
+			}
+			v, _ := t.Attr("value")
+			if _, err := base64.StdEncoding.DecodeString(v); err == nil {
+				out = append(out, sub(`<html><form method="post" action="#"><input type="hidden" name="SAMLResponse" value="`+v+`"/></form></html>`))
+			}
+		}
+	case "xml-body", "http-error", "other":
+		parts := strings.Split(string(d.Body), "<?xml")
+		for i, p := range parts {
+			if i >= 2 && strings.TrimSpace(p) != "" {
+				out = append(out, sub("<?xml"+p))
+			}
+		}
+	}
+	return out
+}
